@@ -32,8 +32,8 @@ C11OK(rec) ==
          [] OTHER -> FALSE
 VARIABLE i
 Judge(rec) ==
-    /\ (Level # 2 \/ C11OK(rec) \/ PrintT(<<"L2FAIL", "C11", rec.id>>))
-    /\ (Level # 1 \/ StepOK(rec) \/ PrintT(<<"L1DRIFT", "sort", rec.id>>))
+    /\ (IF Level # 2 \/ C11OK(rec) THEN TRUE ELSE PrintT(<<"L2FAIL", "C11", rec.id>>))
+    /\ (IF Level # 1 \/ StepOK(rec) THEN TRUE ELSE PrintT(<<"L1DRIFT", "sort", rec.id>>))
 TInit == i = 1
 TNext == i < Len(Recs) /\ i' = i + 1 /\ Judge(Recs[i + 1])
 TSpec == TInit /\ [][TNext]_i
